@@ -4,6 +4,8 @@
 #define TETL_VARIANT_VARIANT_ALTERNATIVE_SELECTOR_HPP
 
 #include <etl/_type_traits/declval.hpp>
+#include <etl/_cstddef/size_t.hpp>
+#include <etl/_utility/index_sequence.hpp>
 #include <etl/_variant/overload.hpp>
 
 namespace etl::detail {
@@ -17,15 +19,26 @@ struct variant_alternative_selector_array {
 // declaration T_i x[] = {etl::forward<U>(u)}; is well-formed, i.e. alternatives
 // that would need a narrowing conversion (incl. anything but bool -> bool) are
 // not candidates.
-template <typename T>
+// The index makes the bases of the overload set distinct when an alternative type
+// occurs more than once; the call is then ambiguous and nothing is selected.
+template <size_t I, typename T>
 struct variant_alternative_selector_single {
     template <typename U>
         requires requires(U&& u) { variant_alternative_selector_array<T>{{static_cast<U&&>(u)}}; }
     auto operator()(T /*t*/, U&& /*u*/) const -> T;
 };
 
+template <typename Seq, typename... Ts>
+struct variant_alternative_selector_set;
+
+template <size_t... Is, typename... Ts>
+struct variant_alternative_selector_set<index_sequence<Is...>, Ts...> : variant_alternative_selector_single<Is, Ts>... {
+    using variant_alternative_selector_single<Is, Ts>::operator()...;
+};
+
 template <typename... Ts>
-inline constexpr auto variant_alternative_selector = etl::overload{variant_alternative_selector_single<Ts>{}...};
+inline constexpr auto variant_alternative_selector
+    = variant_alternative_selector_set<index_sequence_for<Ts...>, Ts...>{};
 
 template <typename T, typename... Ts>
 using variant_alternative_selector_t
